@@ -165,6 +165,18 @@ def gen_variant(r, trig):
         # scheme names are case-insensitive and need not be http: the authority is the target's host whatever the scheme is spelt like
         target = r.pick(['HTTP', 'Http', 'hTtP', 'https', 'HTTPS', 'ws', 'WSS', 'ftp', 'x-a.b+c']) + target[4:]
         exp['target_form'] = 'absolute(%s)' % target.split(':')[0]
+    # obs-fold: the field value of a trigger line may start on a continuation line (RFC 7230 3.2.4; the request parser unfolds it) -
+    # with every single cut this includes the cut between the field line and its continuation
+    if r.chance(0.2):
+        def fold(line):
+            nm, rest = line.split(':', 1)
+            return nm + ':' + r.pick(['\r\n ', '\r\n\t', ' \r\n  ']) + rest.lstrip(' \t')
+        if trig in ('te_cl', 'chunked_http10', 'bad_te'):
+            headers = [fold(h) if h.lower().startswith('transfer-encoding') else h for h in headers]
+            exp['folded'] = 'te'
+        elif trig in ('host_mismatch', 'host_mismatch_port', 'hosth_invalid') and host_line:
+            host_line = fold(host_line)
+            exp['folded'] = 'host'
     # other headers around
     others = []
     used = set()
@@ -227,6 +239,8 @@ def shard(args):
         out['distinct'].add(hashlib.sha1(repr(ops).encode('latin-1', 'replace')).digest()[:8])
         out['variants'].add(hashlib.sha1(req).digest()[:8])
         out['trig'][exp['trigger']] = out['trig'].get(exp['trigger'], 0) + 1
+        if exp.get('folded'):
+            out['trig']['folded_' + exp['folded']] = out['trig'].get('folded_' + exp['folded'], 0) + 1
         txs = d.get('tx', [])
         t = txs[0] if txs else None
         errs = []
@@ -234,7 +248,7 @@ def shard(args):
             errs.append(('no_tx', 'no transaction'))
         else:
             if (t['flags'] & exp['need']) != exp['need']:
-                errs.append(('missing_indicator:' + exp['trigger'], 'flags 0x%x lack 0x%x for trigger %s (%s-form target, %s delivery)' % (t['flags'], exp['need'], exp['trigger'], exp.get('target_form'), cname)))
+                errs.append(('missing_indicator:' + exp['trigger'], 'flags 0x%x lack 0x%x for trigger %s (%s-form target, %s delivery%s)' % (t['flags'], exp['need'], exp['trigger'], exp.get('target_form'), cname, ', folded ' + exp['folded'] if exp.get('folded') else '')))
             if exp['chunked']:
                 if t['req_tc'] != 3:
                     errs.append(('not_chunked:' + exp['trigger'], 'request_transfer_coding %d, chunked expected' % t['req_tc']))
